@@ -58,31 +58,31 @@ CHECKS = {
          "Trusts go/ssa dominators/loops, this checker's term evaluator; registered issuers behave like the repository's (non-empty response on success).",
          "DESIGN.md §4 C05"),
  "C18": ("symbolic ASN.1 layout terms (cryptobyte builder trees with OIDs by value), checked read sequences, return-term bindings on SSA, EncapKey decoder/encoder field agreement",
-         "Sound static analysis of structural necessary conditions: MarshalTokenKeyPSSOID's builder term equals the prescribed RSASSA-PSS SPKI tree (SHA-384, MGF1-SHA-384, salt 48; OIDs by value, single initialisation); UnmarshalTokenKey performs the checked SEQ{SEQ,BITSTRING{SEQ{INT,INT}}} reads and returns the integers read; every issuer's TokenKeyID is a freshly computed SHA-256 of its serialized public key; type-1/2/5 requests carry the last byte of the id; the type-3 name key id is SHA-256 of the EncapKey encoding; no key type's Marshal returns a cache seeded outside Marshal. Does not decide DER round trips for every modulus/exponent (encoding/asn1, cryptobyte).",
+         "Sound static analysis of structural necessary conditions: MarshalTokenKeyPSSOID's builder term equals the prescribed RSASSA-PSS SPKI tree (SHA-384, MGF1-SHA-384, salt 48; OIDs by value, single initialisation); UnmarshalTokenKey performs the checked SEQ{SEQ,BITSTRING{SEQ{INT,INT}}} reads and returns the integers read; every issuer's TokenKeyID is a freshly computed SHA-256 of its serialized public key; type-1/2/5 requests carry the last byte of the id; the type-3 name key id is SHA-256 of the EncapKey encoding, and the value stored in the request's NameKeyID field is followed back through the helpers it comes from to that hash of the name key ARGUMENT (a memo or table in between is not accepted); no key type's Marshal returns a cache seeded outside Marshal. Does not decide DER round trips for every modulus/exponent (encoding/asn1, cryptobyte).",
          "Trusts go/ssa, this checker's term and reader extractors, encoding/asn1 and cryptobyte as documented.",
          "DESIGN.md §4 C18"),
- "C19": ("bit-provenance abstract interpretation on SSA (each bit is 0, 1 or a named input bit; constant shifts, masks, ORs, width conversions exact) composed across AppendVarint and ConsumeVarint; guard-dominance facts; linear range proving (Fourier-Motzkin) of index/slice obligations and of the returned view (offset, length); may-write effect summaries; for a decoder driven by a computed size (n = 1 << (b[0]>>6)): abstract interpretation of ConsumeVarint with trace partitioning on the two class bits and the available length, payload bits symbolic",
-         "Sound static analysis deciding the varint clauses for all values at once: both writers branch on the same ordered thresholds 2^6-1/2^14-1/2^30-1/2^62-1 with sizes 1/2/4/8 and reject larger values (first match wins, so the shortest form); for each class the decoder's expression over the encoder's bytes is the identity on v and the length reported equals the bytes appended; decoded values stay below 2^(8n-2) for arbitrary input; every b[k] is read behind len(b) >= n and failure (0,-1) occurs exactly on the negated guard; Consume*Bytes return b[prefix:prefix+size] and prefix+size (linear identities), fail exactly when that exceeds len(b), with no narrowing (also with 32-bit int); Append*Bytes layouts mirror them and the uint8 length is narrowed only after the check; the appenders write the destination only through append.",
+ "C19": ("bit-provenance abstract interpretation on SSA (each bit is 0, 1 or a named input bit; constant shifts, masks, ORs, width conversions exact) composed across AppendVarint and ConsumeVarint; guard-dominance facts; linear range proving (Fourier-Motzkin) of index/slice obligations and of the returned view (offset, length); may-write effect summaries; for a decoder driven by a computed size (n = 1 << (b[0]>>6)): abstract interpretation of ConsumeVarint with trace partitioning on the two class bits and the available length, payload bits symbolic; bounds proving for every module function that consumes a declared length",
+         "Sound static analysis deciding the varint clauses for all values at once: both writers branch on the same ordered thresholds 2^6-1/2^14-1/2^30-1/2^62-1 with sizes 1/2/4/8 and reject larger values (first match wins, so the shortest form); for each class the decoder's expression over the encoder's bytes is the identity on v and the length reported equals the bytes appended; decoded values stay below 2^(8n-2) for arbitrary input; every b[k] is read behind len(b) >= n and failure (0,-1) occurs exactly on the negated guard; Consume*Bytes return b[prefix:prefix+size] and prefix+size (linear identities), fail exactly when that exceeds len(b), with no narrowing (also with 32-bit int); Append*Bytes layouts mirror them and the uint8 length is narrowed only after the check; the appenders write the destination only through append; every module function that calls a quicwire.Consume* function has all its slice and index bounds proved (a declared length is compared with the remaining input before slicing).",
          "Trusts go/ssa, this checker's bit domain, range prover and effect analysis; append does not modify existing elements; encoding/binary as documented. An encoder not written as append of byte expressions is outside the bit domain and is reported as undecided (failing).",
          "DESIGN.md §4 C19"),
- "C20": ("abstract interpretation of the padding arithmetic over residue classes (n = 0; n = 32q+r for r = 1..32 with q symbolic; +, -, constant *, /, % exact in the affine-in-q domain with Go's truncated remainder), content terms of the padded buffer, an inductive backward-scan rule for the unpadder (guard-dominance facts + linear range proving), def-use flow of the origin-name parameter, sealed-plaintext layout term, dominance of signing by the exact map-lookup hit",
-         "Sound static analysis deciding the padding and unpadding clauses for all name lengths below 2^31-64: padOriginName returns name || zeros of total length 32*max(1, ceil(n/32)); unpadOriginName starts at the last byte, steps down by one only over zero bytes, returns the prefix ending at the first non-zero byte found from the end and \"\" if none (so it strips exactly the trailing zeros and inverts padding on names not ending in a zero byte); the name parameter reaches the request only through padOriginName and every other field of the sealed plaintext has a name-independent width; the issuer looks the unpadded name up by exact map key and signs only on a hit. Does not decide that HPKE and the outer codecs transport the padded field unchanged (C01/C04, go-hpke contract).",
+ "C20": ("abstract interpretation of the padding arithmetic over residue classes (n = 0; n = 32q+r for r = 1..32 with q symbolic; +, -, constant *, /, % exact in the affine-in-q domain with Go's truncated remainder), content terms of the padded buffer, an inductive backward-scan rule for the unpadder (guard-dominance facts + linear range proving), def-use flow of the origin-name parameter, sealed-plaintext layout term, dominance of signing by the exact map-lookup hit; operand-closure dependence of Evaluate's rejecting branches on the recovered name; key-spelling agreement of the registry",
+         "Sound static analysis deciding the padding and unpadding clauses for all name lengths below 2^31-64: padOriginName returns name || zeros of total length 32*max(1, ceil(n/32)); unpadOriginName starts at the last byte, steps down by one only over zero bytes, returns the prefix ending at the first non-zero byte found from the end and \"\" if none (so it strips exactly the trailing zeros and inverts padding on names not ending in a zero byte); the name parameter reaches the request only through padOriginName and every other field of the sealed plaintext has a name-independent width; the issuer looks the unpadded name up by exact map key and signs only on a hit; no rejecting branch of Evaluate other than the lookup miss depends on the recovered name or its padded bytes; the registry is written and read under the same spelling of the key. Does not decide that HPKE and the outer codecs transport the padded field unchanged (C01/C04, go-hpke contract).",
          "Trusts go/ssa, this checker's term evaluator, range prover and affine residue domain; a padding size computed with branches (outside +,-,*,/,% of the length) is reported as undecided (failing).",
          "DESIGN.md §4 C20"),
- "C01": ("writer/reader layout agreement and parameter agreement between the two ends of each protocol: symbolic byte-layout terms, checked read sequences, widths from go/types constants, return-term bindings on SSA",
-         "Sound static analysis of structural necessary conditions of an honest run completing: request encoders and the decoders the issuers use agree (widths = length of what the client stores); each issuer's response layout is what its client splits and parses; tokens are type||nonce||SHA-256(challenge)||key id||authenticator with widths 48/256/256/64 and are decoded from state token input || finalize output; constructors bind the token input to the type constant, nonce, challenge digest and key id; both ends name the same suite, hash, info strings, labels and exported-secret length; the type-3 issuer's unpadding inverts the client's origin padding for every name length (rules shared with C20); the QUIC-varint length prefixes of type 5 and batch messages are exact (rules shared with C19). Does not decide that the cryptography completes and verifies (dependencies' contract).",
+ "C01": ("writer/reader layout agreement and parameter agreement between the two ends of each protocol: symbolic byte-layout terms, checked read sequences, widths from go/types constants, return-term bindings on SSA; key-spelling agreement of every table held in a struct field",
+         "Sound static analysis of structural necessary conditions of an honest run completing: request encoders and the decoders the issuers use agree (widths = length of what the client stores); each issuer's response layout is what its client splits and parses; tokens are type||nonce||SHA-256(challenge)||key id||authenticator with widths 48/256/256/64 and are decoded from state token input || finalize output; constructors bind the token input to the type constant, nonce, challenge digest and key id; both ends name the same suite, hash, info strings, labels and exported-secret length; the type-3 issuer's unpadding inverts the client's origin padding for every name length (rules shared with C20); the QUIC-varint length prefixes of type 5 and batch messages are exact (rules shared with C19); every table held in a struct field (origin index keys, attester maps, batch issuer lists) is stored and looked up under the same spelling of its key. Does not decide that the cryptography completes and verifies (dependencies' contract).",
          "Trusts go/types, go/ssa, this checker's term and reader extractors, the layout table (c04.go), circl/go-hpke/crypto as documented.",
          "DESIGN.md §4 C01"),
  "C11": ("call-graph reachability to entropy sources (VTA, Once.Do resolved at the site, std bodies as leaves) with positive control; parameter liveness by symbolic binding; mutable-global query over may-write summaries; content-dependence slice of the rejecting branches on blind/salt bytes",
          "Sound static analysis of structural necessary conditions of reproducibility: the deterministic entry points reach no entropy source (their randomised siblings do - positive control), the supplied blinds/salt are exactly what DeterministicBlind/FixedBlind receive (element i with input i), no mutable package-level state is touched, and the state keeps its own serialized token input that contains no blind/salt parameter. Does not decide that unblinding cancels the blind nor agreement with the Rust vectors (arithmetic evaluation).",
          "Trusts go/ssa, VTA call graph, effects.go, this checker's term evaluator; std functions outside the sink list are deterministic.",
          "DESIGN.md §4 C11"),
- "C14": ("reference agreement: syntax-tree comparison of the fork's functions with GOROOT crypto/internal/edwards25519{,/field} and crypto/ed25519 (alpha-renaming, reviewed helper equivalences); guard dominance and hash-input terms on SSA; constant comparison by value",
-         "Sound static analysis of structural necessary conditions: 77 functions of the arithmetic core, key generation and key derivation are syntactically the standard library's (modulo renaming), so they compute what it computes; constants agree by value; Verify accepts only behind the five RFC 8032 guards with the standard hash input; signing uses the standard hash inputs and output layout; the canonical-S test scans all 32 bytes against L-1. Does not decide the fork-specific ref10 scalar arithmetic (scMulAdd, scReduce, SetBytes, ModInverse) - the larger part of bit-compatibility - for which no reference exists in the sandbox.",
+ "C14": ("reference agreement: syntax-tree comparison of the fork's functions with GOROOT crypto/internal/edwards25519{,/field} and crypto/ed25519 (alpha-renaming, reviewed helper equivalences); guard dominance and hash-input terms on SSA; constant comparison by value; the canonicity test decided by pushing the three orderings of (scalar byte, bound byte) through one loop iteration on SSA",
+         "Sound static analysis of structural necessary conditions: 77 functions of the arithmetic core, key generation and key derivation are syntactically the standard library's (modulo renaming), so they compute what it computes; constants agree by value; Verify accepts only behind the five RFC 8032 guards with the standard hash input; signing uses the standard hash inputs and output layout; the canonical-S test scans all 32 bytes against L-1, most significant first, returning true on <, false on >, and true when all are equal (decided by orderings, not by enumerating byte values); a lazily built table spelled with sync.OnceValue agrees when its body is the reference's, statement by statement. Does not decide the fork-specific ref10 scalar arithmetic (scMulAdd, scReduce, SetBytes, ModInverse) - the larger part of bit-compatibility - for which no reference exists in the sandbox.",
          "Trusts go/parser, this checker's AST matcher, go/ssa, the GOROOT source of the default toolchain as reference, the reviewed divergent list (printed in evidence).",
          "DESIGN.md §4 C14"),
- "C03": ("range proving on SSA: linear obligations over symbolic atoms decided by Fourier-Motzkin entailment from dominating guards, SSA definitions, loop induction, reviewed post-/pre-condition tables and translated callee success facts; loop-shape and recursion checks; unchecked-read detection",
-         "Sound static analysis of a structural sufficient condition for 'no panic, termination, allocation proportional to input' inside pat-go code: every slice (hi <= len, not cap), index, make (bounded by a constant or an input length), non-constant division, slice-to-array conversion and callee precondition in every pat-go function reachable from the 36 peer-bytes entry points is proved (478 obligations on amd64; thorough repeats for 386 and arm64, where int is 32 bits); every cryptobyte read's result is used; all 15 loops match terminating shapes; no recursion; explicit panics are documented own-key preconditions; the ECDSA core is behind its range checks. Does not cover panics/allocation inside dependencies on well-typed input, nil caller pointers, or machine-word overflow of length arithmetic.",
+ "C03": ("range proving on SSA: linear obligations over symbolic atoms decided by Fourier-Motzkin entailment from dominating guards, SSA definitions, loop induction, reviewed post-/pre-condition tables and translated callee success facts; loop-shape and recursion checks; unchecked-read detection; constructor-literal completeness for embedded structs whose zero value holds nil interfaces",
+         "Sound static analysis of a structural sufficient condition for 'no panic, termination, allocation proportional to input' inside pat-go code: every slice (hi <= len, not cap), index, make (bounded by a constant or an input length), non-constant division, slice-to-array conversion and callee precondition in every pat-go function reachable from the 36 peer-bytes entry points is proved (478 obligations on amd64; thorough repeats for 386 and arm64, where int is 32 bits); every cryptobyte read's result is used; all 15 loops match terminating shapes; no recursion; explicit panics are documented own-key preconditions; the ECDSA core is behind its range checks; every composite literal that builds a module struct sets each embedded-by-value struct field whose zero value holds nil interfaces, if that field is read anywhere. Does not cover panics/allocation inside dependencies on well-typed input, nil caller pointers, or machine-word overflow of length arithmetic.",
          "Trusts go/ssa, ranges.go (Fourier-Motzkin over rationals), the reviewed post-condition/precondition/positive-getter tables (printed in evidence), C14 identity for matched arithmetic functions; dependencies do not panic on well-typed arguments.",
          "DESIGN.md §4 C03"),
 }
